@@ -97,6 +97,18 @@ def patched(obj, attr, value):
             setattr(obj, attr, old)
 
 
+@contextlib.contextmanager
+def neutral():
+    """The monitors' own arithmetic runs inside the library call, hence under whatever warning / floating-point settings
+    the workload chose for that call; judging is done under NumPy's and Python's defaults."""
+    import warnings
+    import numpy as np
+    with warnings.catch_warnings():
+        warnings.simplefilter('ignore')
+        with np.errstate(divide='warn', over='warn', under='ignore', invalid='warn'):
+            yield
+
+
 _MISSING = object()
 
 
